@@ -230,6 +230,42 @@ def commitCmd (H : HashFn) (i : CommitIn) : Res (Bytes × Bytes) :=
   | some loc, some glob => commitWith H i loc glob
   | _, _ => .err
 
+/-! ### `goit reset [--soft|--mixed|--hard] HEAD@{n}` -/
+
+/-- the mode flags of `reset` as evaluated in `cmd/reset.go`: exactly one mode must remain once
+    `--soft`/`--hard` have cleared the default `--mixed` -/
+def modeOf (soft mixed hard : Bool) : Option (Bool × Bool × Bool) :=
+  let mixed' := if soft || hard then false else mixed
+  if (soft && !mixed' && !hard) || (!soft && mixed' && !hard) || (!soft && !mixed' && hard) then some (soft, mixed', hard) else none
+
+structure ResetOut where
+  target : Bytes            -- the commit the current branch is set to
+  index  : List Entry       -- the staging area afterwards
+  hard   : Bool             -- the staged blobs are written to the working tree
+deriving DecidableEq, Repr
+
+/-- `goit reset`: flags, argument, the bytes of `logs/HEAD`, the snapshots of the stored commits
+    (what `Index.Reset` reads back: `C05.reset_readback`), the staging area -/
+def resetCmd (soft mixed hard : Bool) (arg logHead : Bytes) (snaps : List (Bytes × List Entry)) (idx : List Entry) : Res ResetOut :=
+  match modeOf soft mixed hard with
+  | none => .err
+  | some (s, _, h) =>
+    match Reflog.parseResetArg arg with
+    | none => .err
+    | some n =>
+      match Reflog.parse logHead with
+      | none => .err
+      | some rs =>
+        match Reflog.get rs n with
+        | none => .err
+        | some r =>
+          match r.hash with
+          | none => .err                       -- the record of a branch rename carries no commit
+          | some t =>
+            match snaps.find? (fun x => x.1 == t) with
+            | none => .err
+            | some (_, es) => .ok ⟨t, if s then idx else es, h⟩
+
 /-- `Index.Reset(hash)`: commit → its tree → `walkTree` → `getEntriesFromTree`; the new staging area -/
 def resetEntries (H : HashFn) (s : Store) (depth : Nat) (commitId : Bytes) : Res (List Entry) :=
   match Store.get H s commitId with
